@@ -169,9 +169,13 @@ def build_harness(cfg, log):
         if not os.path.exists(lock_dst):
             import shutil
             shutil.copy(lock_src, lock_dst)
-        cmd = ["cargo", "build", "--release", "--offline"] + cfg.get("cargo_args", [])
+        cmd = ["cargo", "build", "--release", "--offline"]
         b = run(cmd, cwd=cfg.get("harness_dir", HARNESS), timeout=3000)
         log.write("== cargo build\n" + b.stdout[-6000:] + "\n")
+        if b.returncode == 0 and cfg.get("cargo_args"):
+            # a second build of the same harness in another feature configuration (own target dir)
+            b = run(cmd + cfg["cargo_args"], cwd=cfg.get("harness_dir", HARNESS), timeout=3000)
+            log.write("== cargo build " + " ".join(cfg["cargo_args"]) + "\n" + b.stdout[-6000:] + "\n")
         return b.returncode == 0, b.stdout
 
 
@@ -187,7 +191,7 @@ def correspondence(pid, cfg, tier, seed, log, workdir, replay_file=None):
     out = {"ran": False, "model_cases": 0, "agree": 0, "violations": [], "drift": [], "known": [],
            "tool_errors": [], "report": {}}
     n = cfg["n"][tier]
-    hbin = os.path.join(cfg.get("harness_dir", HARNESS), "target", "release", cfg.get("harness_bin", "adbharness"))
+    hbin = os.path.join(cfg.get("harness_dir", HARNESS), cfg.get("harness_target", "target"), "release", cfg.get("harness_bin", "adbharness"))
     args = [hbin, cfg["harness_prop"], str(seed), str(n), workdir, tier]
     if replay_file:
         args += ["--replay", replay_file]
@@ -304,7 +308,7 @@ def main():
     # ---- step E: replay the witnesses of known_findings.json on the real code
     witness_res = []
     if ok_build:
-        hbin = os.path.join(cfg.get("harness_dir", HARNESS), "target", "release", cfg.get("harness_bin", "adbharness"))
+        hbin = os.path.join(cfg.get("harness_dir", HARNESS), cfg.get("harness_target", "target"), "release", cfg.get("harness_bin", "adbharness"))
         w = run([hbin, "WITNESS", pid, os.path.join(ROOT, "known_findings.json"), workdir], cwd=ROOT, timeout=600)
         log.write("== witness replay\n" + w.stdout[-2000:] + "\n")
         try:
